@@ -53,7 +53,7 @@ def finish (d : DSt) (op : Op) (obsM : Obs) (st' : St) (implObs : Option Obs) (m
     let sp' := (specStep d.sp d.now op io).2
     let _ := obsM
     let cls' := if !noWrap d.sp d.now then cls ++ ":uint32-horizon"
-      else if d.faulted then cls ++ ":after-db-write-failure" else cls
+      else if d.faulted || !d.dbOK then cls ++ ":after-db-write-failure" else cls
     ({ d with st := st', sp := sp', mslots := ms, islots := is, faulted := d.faulted || !d.dbOK },
      verdict agree (if ok then none else some cls') mstr)
 
